@@ -483,6 +483,12 @@ func (ec *evCase) oracleImplicated(what string, ds []*lib.DoubleSigner, opLine s
 				map[string]any{"op": opLine, "history": ec.hist})
 		}
 		for _, h := range d.Heights {
+			// the root chain's index of already slashed (validator, root height) pairs is kept by the harness's
+			// controller: such a pair must never be listed again (replayed evidence)
+			if ec.c.slashed[fmt.Sprintf("%s@%d", drv.Hex(d.Id), h)] {
+				fail(ec.o, "C14:already-slashed-pair-listed-again", fmt.Sprintf("%s lists validator %s for root height %d although the root chain already slashed it for that height", what, drv.Hex(d.Id)[:16], h),
+					map[string]any{"op": opLine, "history": tail(ec.hist, 40)})
+			}
 			// only when the expiry bound comes from the real state machine the way the node is wired
 			// (in table mode the harness itself dictates the bound, including wrong ones)
 			if ec.wired && ec.expired(h) {
